@@ -58,7 +58,8 @@ class SBit:
         return bnot(r)
 
     def __hash__(self):
-        raise OutOfReach("hash of symbolic bit")
+        # a bit used inside a dictionary key: decide it (fork) - the key comparison that follows is then forced
+        return hash(1 if core.branch(self.p) else 0)
 
     def __bool__(self):
         return core.branch(self.p)
@@ -311,8 +312,8 @@ class SInt:
     def __sub__(self, o):
         a = self.under_pc()
         b = o.under_pc() if isinstance(o, SInt) else o
-        if isinstance(a, SInt) or isinstance(b, SInt):
-            raise OutOfReach("symbolic subtraction")
+        if isinstance(a, SInt) or isinstance(b, (SInt, SLin)):
+            return SDiff(a, b)
         return a - b
 
     def __rsub__(self, o):
@@ -426,6 +427,46 @@ class SInt:
 
     def __repr__(self):
         return "SInt<%d bits>" % len(self.bits)
+
+
+class SDiff:
+    """a - b for symbolic naturals, usable only in (in)equality tests:  a - b == c  <=>  a == b + c"""
+
+    __slots__ = ("a", "b")
+
+    def __init__(self, a, b):
+        self.a, self.b = a, b
+
+    def __eq__(self, o):
+        if isinstance(o, SDiff):
+            return SLin.lift(self.a) + SLin.lift(o.b) == (SLin.lift(self.b) + SLin.lift(o.a)).to_sint() if False else _lin_eq(SLin.lift(self.a) + SLin.lift(o.b), SLin.lift(self.b) + SLin.lift(o.a))
+        if isinstance(o, (int, _np.integer)) and not isinstance(o, bool):
+            if o >= 0:
+                return _lin_eq(SLin.lift(self.a), SLin.lift(self.b) + int(o))
+            return _lin_eq(SLin.lift(self.a) + (-int(o)), SLin.lift(self.b))
+        if isinstance(o, (SInt, SLin, SBit)):
+            return _lin_eq(SLin.lift(self.a), SLin.lift(self.b) + SLin.lift(o))
+        return NotImplemented
+
+    def __ne__(self, o):
+        r = self.__eq__(o)
+        return bnot(r) if isinstance(r, SBit) else (not r if r is not NotImplemented else r)
+
+    def __hash__(self):
+        raise OutOfReach("hash of symbolic int")
+
+    def __deepcopy__(self, memo):
+        return self
+
+
+def _lin_eq(x, y):
+    x = x.to_sint() if isinstance(x, SLin) else x
+    y = y.to_sint() if isinstance(y, SLin) else y
+    if isinstance(x, SInt):
+        return x == y
+    if isinstance(y, SInt):
+        return y == x
+    return x == y
 
 
 class SNeg:
